@@ -45,55 +45,67 @@ def accept(num, den, interpolated):
     return (num // den, num // den + 1)
 
 
+def block_pixels(fmt, d):
+    """-> 16 pixels, each a list of 4 (lo, hi) pairs in RGBA order"""
+    if fmt == "bc1":
+        pal = bc1_palette(d)
+        sel = struct.unpack_from("<I", d, 4)[0]
+        px = []
+        for i in range(16):
+            c, a, ip = pal[(sel >> (2 * i)) & 3]
+            px.append([accept(n, dn, ip) for n, dn in c] + [(a, a) if a is not None else (1, 0)])
+    elif fmt == "bc3":
+        ap = alpha_palette(d[:8])
+        abits = int.from_bytes(d[2:8], "little")
+        pal = bc1_palette(d[8:])
+        sel = struct.unpack_from("<I", d, 12)[0]
+        px = []
+        for i in range(16):
+            c, a, ip = pal[(sel >> (2 * i)) & 3]
+            an, ad, aip = ap[(abits >> (3 * i)) & 7]
+            px.append([accept(n, dn, ip) for n, dn in c] + [accept(an, ad, aip)])
+    else:
+        rp = alpha_palette(d[:8]); rbits = int.from_bytes(d[2:8], "little")
+        gp = alpha_palette(d[8:]); gbits = int.from_bytes(d[10:16], "little")
+        px = []
+        for i in range(16):
+            rn, rd, rip = rp[(rbits >> (3 * i)) & 7]
+            gn, gd, gip = gp[(gbits >> (3 * i)) & 7]
+            px.append([accept(rn, rd, rip), accept(gn, gd, gip), (0, 0), (255, 255)])
+    return px
+
+
 def decode_expected(fmt, w, h, payload):
     """-> (lo, hi) bytearrays of w*h*4 giving the accepted range per output byte (RGBA order);
-    hi < lo marks an unconstrained byte"""
-    lo = bytearray(w * h * 4)
-    hi = bytearray(w * h * 4)
+    hi < lo marks an unconstrained byte. Blocks are decoded once per distinct content and the image
+    is assembled row-wise, so large tiled payloads stay cheap."""
     if fmt == "bgra":
-        for i in range(w * h):
-            b, g, r, a = payload[4 * i:4 * i + 4]
-            lo[4 * i:4 * i + 4] = hi[4 * i:4 * i + 4] = bytes([r, g, b, a])
-        return lo, hi
+        lo = bytearray(payload[:w * h * 4])
+        lo[0::4] = payload[2:w * h * 4:4]
+        lo[2::4] = payload[0:w * h * 4:4]
+        return lo, bytearray(lo)
     bs = 8 if fmt == "bc1" else 16
+    memo = {}
+    lo_rows, hi_rows = [], []
+    bw = (w + 3) // 4
     off = 0
     for by in range((h + 3) // 4):
-        for bx in range((w + 3) // 4):
+        rows = []
+        for bx in range(bw):
             d = payload[off:off + bs]
             off += bs
-            if fmt == "bc1":
-                pal = bc1_palette(d)
-                sel = struct.unpack_from("<I", d, 4)[0]
-                px = []
-                for i in range(16):
-                    c, a, ip = pal[(sel >> (2 * i)) & 3]
-                    px.append([accept(n, dn, ip) for n, dn in c] + [(a, a) if a is not None else (1, 0)])
-            elif fmt == "bc3":
-                ap = alpha_palette(d[:8])
-                abits = int.from_bytes(d[2:8], "little")
-                pal = bc1_palette(d[8:])
-                sel = struct.unpack_from("<I", d, 12)[0]
-                px = []
-                for i in range(16):
-                    c, a, ip = pal[(sel >> (2 * i)) & 3]
-                    an, ad, aip = ap[(abits >> (3 * i)) & 7]
-                    px.append([accept(n, dn, ip) for n, dn in c] + [accept(an, ad, aip)])
-            else:
-                rp = alpha_palette(d[:8]); rbits = int.from_bytes(d[2:8], "little")
-                gp = alpha_palette(d[8:]); gbits = int.from_bytes(d[10:16], "little")
-                px = []
-                for i in range(16):
-                    rn, rd, rip = rp[(rbits >> (3 * i)) & 7]
-                    gn, gd, gip = gp[(gbits >> (3 * i)) & 7]
-                    px.append([accept(rn, rd, rip), accept(gn, gd, gip), (0, 0), (255, 255)])
-            for i in range(16):
-                x = bx * 4 + i % 4
-                y = by * 4 + i // 4
-                if x < w and y < h:
-                    o = (y * w + x) * 4
-                    for c in range(4):
-                        lo[o + c], hi[o + c] = px[i][c]
-    return lo, hi
+            r = memo.get(d)
+            if r is None:
+                px = block_pixels(fmt, d)
+                r = ([bytes(px[4 * y + x][c][0] for x in range(4) for c in range(4)) for y in range(4)],
+                     [bytes(px[4 * y + x][c][1] for x in range(4) for c in range(4)) for y in range(4)])
+                if len(memo) < 70000:
+                    memo[d] = r
+            rows.append(r)
+        for y in range(min(4, h - 4 * by)):
+            lo_rows.append(b"".join(r[0][y] for r in rows)[:4 * w])
+            hi_rows.append(b"".join(r[1][y] for r in rows)[:4 * w])
+    return bytearray(b"".join(lo_rows)), bytearray(b"".join(hi_rows))
 
 
 def payload_len(fmt, w, h):
